@@ -34,7 +34,7 @@ def decOps : Sexp → Option (List (Session.Op String Nat Nat))
   | _ => none
 
 def watchWorld (files : List (String × List Variant)) : Session.World String Nat (List Stmt × List (String × Ty)) Nat String :=
-  { parse := fun f k => match files.find? (fun x => x.1 == f) with
+  { parse := fun _ f k => match files.find? (fun x => x.1 == f) with
       | some (_, vs) => (vs[k]?).bind (·.src)
       | none => none
     touched := fun _ _ => files.map (·.1)
@@ -70,7 +70,7 @@ def watchOp (filesS opsS : Sexp) : Sexp :=
   match decWatchFiles filesS, decOps opsS with
   | some files, some ops =>
     let w := watchWorld files
-    let outs := (Session.run w false (Session.fresh (fun _ => 0)) ops).2
+    let outs := (Session.run w false (Session.fresh (fun _ => some 0)) ops).2
     .list (.atom "watch" :: outs.map fun o => .list [.atom "r", .atom o])
   | _, _ => .list [.atom "model-decode-error"]
 
